@@ -468,7 +468,9 @@ def _c14():
     R("c14-chk-name-weakened", S, '        if name in self._g.attrs["nodes"].keys() or (\n            name in self._g.attrs["rails"].values()\n        ):', '        if name in self._g.attrs["nodes"].keys() and (\n            name in self._g.attrs["rails"].values()\n        ):', fires=["C14"])
     R("c14-rail-vs-names-dropped", S, '            if (\n                rail in self._g.attrs["nodes"].keys()\n                or rail in self._g.attrs["rails"].values()\n            ):', '            if rail in self._g.attrs["rails"].values():', fires=["C14"])
     R("c14-rail-equals-name-allowed", S, '            if name == rail:\n                raise ValueError("Component name and rail name cannot be the same!")\n            if (', '            if (', fires=["C14"])
-    R("c14-add-comp-no-dup-check", S, '            if len(parent) > len(set(parent)):\n                raise ValueError("parent paramenter contains duplicates!")\n', '', fires=["C14"])
+    R("c14-add-comp-no-dup-check", S, '        if len(pidx) > len(set(pidx)):\n            raise ValueError("parent paramenter contains duplicates!")\n', '', fires=["C14"])
+    R("eq-add-comp-string-dup-check-dropped", S, '            if len(parent) > len(set(parent)):\n                raise ValueError("parent paramenter contains duplicates!")\n', '', silent=["C14"],
+      note="the check on the resolved indices subsumes the one on the strings (same exception, nothing modified in between): dropping the weaker one changes nothing")
     R("c14-add-comp-multi-parent-any-type", S, '            if comp._component_type != _ComponentTypes.PMUX:\n                raise ValueError("only PMux component can have multiple inputs!")\n', '', fires=["C14"])
     R("c14-add-comp-child-type-first-parent-only", S, "        pidx = []\n        for p in plist:\n            pidx += [self._get_index(p)]\n            if not comp._component_type in self._g[pidx[-1]]._child_types:", "        pidx = []\n        for p in plist:\n            pidx += [self._get_index(p)]\n            if not comp._component_type in self._g[pidx[0]]._child_types:", fires=["C14"])
     R("c14-add-comp-single-pmux-only-for-lists", S, '        if comp._component_type.name == "PMUX":\n            for key in self._g.attrs["nodes"]:', '        if comp._component_type.name == "PMUX" and isinstance(parent, list):\n            for key in self._g.attrs["nodes"]:', fires=["C14"])
